@@ -184,10 +184,42 @@ def rule_x4(chk: Check) -> None:
     chk.floor("X4", "call_later sites", n, 1)
 
 
+def rule_x5(chk: Check) -> None:
+    chk.rule("X5", "close() of every transport facade the protocol is given reaches the close of the TCP transport on every normal path (disconnecting must not depend on the peer's cooperation)")
+    from .common import TLS_WRAPPER
+
+    n = 0
+    for ci in [chk.proj.cls(TLS_WRAPPER)]:
+        cl = ci.methods.get("close")
+        if cl is None:
+            chk.require("X5", ci.key, "close()", 0, 1, "the transport wrapper has no close(): the inner protocol cannot disconnect a peer")
+            continue
+        g = Builder(chk.proj, inline_self_methods, 2).build(cl)
+        from .common import absent_edges, alias_map, canon_dotted
+
+        am = alias_map(cl.node)
+        tcp = nodes_calling(g, lambda c: method_call(c) is not None and method_call(c)[1] in ("close", "abort") and canon_dotted(method_call(c)[0], am).endswith(".transport"))
+        n += len(tcp)
+        if not chk.require("X5", cl.key, "TCP close site", len(tcp), 1, "close() never closes the TCP transport: a silent peer stays connected after the timeout reply"):
+            continue
+        # leaving without the TCP close is acceptable only when there is no transport any more
+        blocked_e = absent_edges(g, lambda d: d.endswith(".transport"), am)
+        par = g.reach([g.entry.id], blocked_nodes={x.id for x in tcp}, blocked_edges=blocked_e, follow=normal_only)
+        ok = g.exit.id not in par
+        if not ok:
+            chk.finding(
+                "X5", cl.key, "close-may-not-close",
+                "close() can return without closing the TCP transport although it exists: after the timeout reply (or any response) the connection stays open until the peer chooses to close it, so a silent peer holds its slot for ever",
+                cl.loc(), g.fmt_path(g.path_to(par, g.exit.id)),
+            )
+        chk.ob("X5", f"{cl.key}: every normal path closes the TCP transport", ok, evals=len(par))
+
+
 def run(chk: Check) -> None:
     rule_x1(chk)
     rule_x2(chk)
     rule_x3(chk)
     rule_x4(chk)
+    rule_x5(chk)
     chk.trusted = ["CPython ast parser", "engine CFG / machine", "asyncio fires call_later callbacks on time and supervises the handshake of ssl= listeners (ssl_handshake_timeout default)"]
     chk.assumptions = ["an event loop is running whenever a protocol callback runs"]
